@@ -861,12 +861,29 @@ func (g *gen) greyLoads(tier string) {
 		g.emit("corrupt-then-valid", g.specFor(p, g.r.Pick(apis), append(bad, plain...)), expectation{Outcome: "any"})
 		g.emit("foreign-then-valid", g.specFor(p, g.r.Pick(apis), append(foreignBlocks()[g.r.Intn(3)].Text, plain...)), expectation{Outcome: "any"})
 		g.emit("glued-leading-text", g.specFor(p, g.r.Pick(apis), append([]byte("xx"), plain...)), expectation{Outcome: "any"})
-		// loading into a Key object that already holds a certificate key
-		certForm := fs[len(fs)-1]
-		l := g.specFor(p, g.r.Pick(apis), plain)
-		l.Reuse = pemOf(certForm.PemType, certForm.DER)
-		g.emit("reused-key-object", l, g.expectOK(p, f, "reused", l))
+		// loading into a Key object that already holds another key: every field must be replaced
+		// (prior content: alternately another pair's private key and another pair's certificate)
+		for i, rf := range fs {
+			q := g.pairs[(g.r.Intn(len(g.pairs)-1)+1+indexOf(g.pairs, p.Name))%len(g.pairs)]
+			qfs := g.forms[q.Name]
+			prior := qfs[0] // pkcs8 private key
+			if i%2 == 1 {
+				prior = qfs[len(qfs)-1] // CA-issued certificate
+			}
+			l := g.specFor(p, g.r.Pick(apis), pemOf(rf.PemType, rf.DER))
+			l.Reuse = pemOf(prior.PemType, prior.DER)
+			g.emit("reused-key-object", l, g.expectOK(p, rf, "reused", l))
+		}
 	}
+}
+
+func indexOf(ps []pair, name string) int {
+	for i, p := range ps {
+		if p.Name == name {
+			return i
+		}
+	}
+	return 0
 }
 
 type foreign struct {
